@@ -97,8 +97,15 @@ def run_session(ctx, fzf, sid, cfg, items, steps, width, height):
             else:
                 s.keys(arg, literal=True)
             loops += 1
-            s.wait_for(lambda tr: sum(1 for e in tr if e["ev"] == "term.loop") >= loops or
-                       any(e["ev"] == "term.exit" for e in tr), timeout=90, what="loop %d" % loops)
+            try:
+                s.wait_for(lambda tr: sum(1 for e in tr if e["ev"] == "term.loop") >= loops or
+                           any(e["ev"] == "term.exit" for e in tr), timeout=90 if kind == "post" else 8,
+                           what="loop %d after %s %r" % (loops, kind, arg))
+            except Infra:
+                if kind == "post":
+                    raise
+                loops -= 1      # a key (sequence) the terminal layer swallowed without handing an event to the loop: no transition
+                continue
             if any(e["ev"] == "term.exit" for e in s.trace()):
                 break
         if not s.exited() and not any(e["ev"] == "term.exit" for e in s.trace()):
